@@ -15,8 +15,11 @@ func init() { All["C13"] = C13 }
 
 // c13One: decode `in` as `mode` on both paths; whenever the decoder reports success the
 // bytes it consumed must be exactly the first complete msgpack value of `in`.
-func c13One(c *core.Ctx, mode string, in []byte, how string) {
-	if gen.Hostile(in) {
+func c13One(c *core.Ctx, mode string, in []byte, how string) { c13Do(c, mode, in, how, true) }
+
+// c13Do: hostileCheck = false for inputs the harness built itself (their counts are honest however large)
+func c13Do(c *core.Ctx, mode string, in []byte, how string, hostileCheck bool) {
+	if hostileCheck && gen.Hostile(in) {
 		c.Hist("skipped hostile count (explored by C10)")
 		return
 	}
@@ -171,7 +174,7 @@ func C13(c *core.Ctx) {
 			enc = append(enc, 0x92, 0xd7, 0x00, byte(i>>24), byte(i>>16), byte(i>>8), byte(i), 0, 0, 0, 5, 0x80)
 		}
 		follow, _ := marshal(&protocol.Message{Tag: "next", Timestamp: 1, Record: map[string]interface{}{}})
-		c13One(c, "forward", append(enc, follow...), fmt.Sprintf("forward with %d entries + follow", n))
+		c13Do(c, "forward", append(enc, follow...), fmt.Sprintf("forward with %d entries + follow", n), false)
 	}
 	// 3. random byte strings
 	for i := 0; i < c.N(1500, 60000); i++ {
